@@ -154,10 +154,8 @@ def tuple_key_cases(run, rng, n):
             bb = [da.from_array(b, chunks=(chunks,)) for b in bys] if mode == "dask-by" else bys
             if mode == "dask-by-mixed":
                 # some groupers held in dask arrays, the others in memory
-                pick = rng.randrange(k)
-                bb = [da.from_array(b, chunks=(chunks,)) if (i == pick) == (rng.random() < 0.5 or True) else b for i, b in enumerate(bys)]
-                if rng.random() < 0.5:
-                    bb = [b if isinstance(x, da.Array) else da.from_array(b, chunks=(chunks,)) for x, b in zip(bb, bys)] if k > 2 else bb
+                lazy = set(rng.sample(range(k), rng.randint(1, k - 1)))
+                bb = [da.from_array(b, chunks=(chunks,)) if i in lazy else b for i, b in enumerate(bys)]
             try:
                 with warnings.catch_warnings(), dask.config.set(scheduler="sync"):
                     warnings.simplefilter("ignore")
